@@ -9,6 +9,7 @@ compared with the Born distribution of an independent oracle (dilation + permane
 the (mean, cov) handed to multivariate_normal vs the quantum mean and (sigma+sigma_m)/2; sample shapes on all
 simulators; Gaussian photon-number sampling statistically (6-sigma, fixed seeds)."""
 import itertools
+import warnings
 import math
 import numpy as np
 from pqv.pathrng import exact_law, PathRng
@@ -50,7 +51,7 @@ def passive_samplers(ctx, n_cases):
             occ[int(rng.integers(0, d))] += 1
         U = haar(rng, d)
         fq = to_first_quantized(occ)
-        kind = str(rng.choice(["ideal", "uniform-loss", "postselect", "overlap", "postselect-overlap", "marginal", "lossy-general"]))
+        kind = str(rng.choice(["ideal", "uniform-loss", "postselect", "postselect-loss", "overlap", "postselect-overlap", "marginal", "lossy-general"]))
         desc = {"kind": kind, "d": d, "occ": occ.tolist(), "U": repr(np.round(U, 6).tolist())}
         dist[kind] = dist.get(kind, 0) + 1
         try:
@@ -80,6 +81,28 @@ def passive_samplers(ctx, n_cases):
                 ref = {tuple(x for i, x in enumerate(k) if i != pm): v for k, v in acc.items()}
                 ref[("__rejected__",)] = 1.0 - sum(acc.values())
                 desc.update(postselect_mode=pm, postselect_count=pc)
+            elif kind == "postselect-loss":
+                # uniform loss AND post-selection: accepted samples follow the lossy Born rule conditioned on the count
+                t = float(rng.uniform(0.3, 0.9))
+                pm = int(rng.integers(0, d)); pc = int(rng.integers(0, n + 1))
+                def run_psl(r):
+                    try:
+                        out = sampling._generate_sample_with_postselect(d, n, permanent_laplace, U, fq, rng=r, reject_condition=lambda: r.random() > t,
+                                                                        postselect_data=((pm,), (pc,), 1))
+                        return tuple(int(x) for x in out)
+                    except Exception as e:
+                        if type(e).__name__ == "InvalidSimulation":
+                            return ("__rejected__",)
+                        raise
+                law = exact_law(run_psl)
+                full = born_table(np.sqrt(t) * U, occ.tolist())
+                acc = {k: v for k, v in full.items() if k[pm] == pc}
+                ref = {}
+                for k, v in acc.items():
+                    kk = tuple(x for i, x in enumerate(k) if i != pm)
+                    ref[kk] = ref.get(kk, 0.0) + v
+                ref[("__rejected__",)] = 1.0 - sum(acc.values())
+                desc.update(postselect_mode=pm, postselect_count=pc, transmission_probability=t)
             elif kind == "overlap":
                 x = float(rng.choice([0.0, 1 / 3, 0.7, 1.0]))
                 law = exact_law(lambda r: tuple(int(v) for v in sampling._generate_sample_with_uniform_overlap(
@@ -359,6 +382,38 @@ def pmf_correspondence(ctx, n):
     return mism
 
 
+KNOWN_HOMODYNE = "purefock-homodyne:multimode-conditional"
+
+
+def pinned_purefock_homodyne(ctx):
+    """PureFock HomodyneMeasurement on two modes of (|10>+|01>)/sqrt2: exact second moments (hbar = 2) are Var x0 = Var x1 = 2,
+    Cov = 1.  The unchanged code weights the conditional density matrix of the second mode with un-normalised Hermite
+    polynomials (factor 1/sqrt(2^n n!) missing), so only the first mode's marginal is right (20000 seeded shots:
+    Var x1 = 1.79, Cov = 0.87, i.e. 13 and 8 standard errors)."""
+    import piquasso as pq
+    ctx.count("pinned:purefock-homodyne", True)
+    with pq.Program() as p:
+        pq.Q(0, 1) | pq.StateVector([1, 0])
+        pq.Q(0, 1) | pq.Beamsplitter(theta=np.pi / 4, phi=0)
+        pq.Q(0, 1) | pq.HomodyneMeasurement()
+    shots = 20000
+    with warnings.catch_warnings():
+        warnings.simplefilter("ignore")
+        res = pq.PureFockSimulator(d=2, config=pq.Config(cutoff=4, seed_sequence=3)).execute(p, shots=shots)
+    smp = np.array(res.samples, dtype=float)
+    cov = np.cov(smp.T)
+    dev = {"Var x0": abs(cov[0, 0] - 2.0), "Var x1": abs(cov[1, 1] - 2.0), "Cov": abs(cov[0, 1] - 1.0)}
+    ctx.notes["purefock_homodyne_cov"] = np.round(cov, 4).tolist()
+    desc = {"program": "StateVector([1,0]); Beamsplitter(pi/4, 0); HomodyneMeasurement() on (0,1); PureFock cutoff 4, seed 3, 20000 shots",
+            "sample_covariance": np.round(cov, 4).tolist(), "exact": [[2.0, 1.0], [1.0, 2.0]]}
+    if max(dev.values()) <= 0.1:        # > 6 standard errors of each estimate
+        return
+    if dev["Var x0"] <= 0.1 and (dev["Var x1"] > 0.1 or dev["Cov"] > 0.1):
+        ctx.fail(KNOWN_HOMODYNE, f"second moments of the samples {np.round(cov, 3).tolist()} instead of [[2, 1], [1, 2]]", desc)
+    else:
+        ctx.fail("purefock-homodyne:first-mode", f"second moments of the samples {np.round(cov, 3).tolist()} instead of [[2, 1], [1, 2]]", desc)
+
+
 def run(ctx):
     quick = ctx.tier == "quick"
     n_s, n_c, n_d = (60, 30, 4) if quick else (1200, 400, 40)
@@ -375,6 +430,7 @@ def run(ctx):
         ctx.count("repro:" + os.path.basename(f), True)
         if p.returncode != 0:
             ctx.fail("repro:" + os.path.basename(f), "pinned regression fails: " + p.stdout[-300:], {"script": f})
+    pinned_purefock_homodyne(ctx)
     mism = chain_model_correspondence(ctx, 12 if quick else 200)
     m_pmf = pmf_correspondence(ctx, 40 if quick else 600)
     if m_pmf:
